@@ -27,11 +27,15 @@ def build_tree(base):
     os.makedirs(os.path.join(base, "static", "sub"))
     os.makedirs(os.path.join(base, "static", "empty"))
     os.makedirs(os.path.join(base, "static2"))
+    # directories whose NAMES look like pages: "adir.html" (there is no "adir") and a directory called index.html
+    os.makedirs(os.path.join(base, "static", "adir.html"))
+    os.makedirs(os.path.join(base, "static", "idx", "index.html"))
     files = {
         "secret.txt": b"TOP-SECRET", "static2/sibling.txt": b"SIBLING-SECRET", "static/index.html": b"<root index>",
         "static/a.txt": b"file a", "static/x.html": b"<x html>", "static/é.txt": b"e-acute", "static/..name": b"dotdot name",
         "static/%2e%2e": b"literal percent name", "static/sub/index.html": b"<sub index>", "static/sub/b.txt": b"file b",
-        "static/sub/page.html": b"<page>", "static/sub/a.txt": b"sub a",
+        "static/sub/page.html": b"<page>", "static/sub/a.txt": b"sub a", "static/adir.html/inner.txt": b"inner",
+        "nosuch.html": b"SIBLING OF A MISSING DIRECTORY",
     }
     for rel, content in files.items():
         with open(os.path.join(base, rel), "wb") as f:
@@ -194,6 +198,7 @@ def bounded(tier, seed):
         ps = paths(2)
         p3 = [p for p in paths(3) if p.count("/") == 3]
         ps += p3 if tier == "thorough" else rng.sample(p3, 400)
+        ps += ["/adir", "/adir/", "/adir.html", "/adir.html/", "/adir.html/inner.txt", "/idx", "/idx/", "/idx/index.html", "/idx/index.html/"]
         ps += ["/sub/", "/sub", "/sub/page", "/sub/page.html", "/a.txt/", "/a.txt/x", "/sub/../a.txt", "/sub/../../secret.txt",
                "/../static2/sibling.txt", "//a.txt", "/sub//b.txt", "/./a.txt", "/empty/", "/empty", "/x", "/%2e%2e/secret.txt"]
         for kind in ("Files", "Pages"):
@@ -208,6 +213,30 @@ def bounded(tier, seed):
                         failures.append({"inputs": {"kind": kind, "iface": iface, "path": path, "region": region}, "violated": v})
                     elif len(samples) < 3 and exp[0] == "serve" and ".." in path:
                         samples.append({"kind": kind, "iface": iface, "path": path})
+        # a configured directory that does not exist, next to a file "<directory>.html": nothing may be served
+        for kind in ("Files", "Pages"):
+            for iface in ("wsgi", "asgi"):
+                for path in ("", "/", "/.", "/x/..", "/index"):
+                    evals += 1
+                    rec, status, hdrs, touched = run(kind, iface, os.path.join(base, "nosuch"), base, path)
+                    from baize.exceptions import HTTPException
+                    if isinstance(rec["exception"], HTTPException) and rec["exception"].status_code == 404:
+                        status = 404
+                    if status == 200 or (rec["exception"] is not None and status != 404):
+                        failures.append({"inputs": {"kind": kind, "iface": iface, "path": path, "region": None, "missing_directory": True},
+                                         "violated": ["directory %r does not exist; %r answered %s %r %r" % (
+                                             "nosuch", path, status, (rec["body"] or b"")[:40], rec["exception"])]})
+        # WSGI: request bytes that are not UTF-8 must not alias the file whose name is their Latin-1 reading
+        for kind in ("Files", "Pages"):
+            evals += 1
+            env = wsgi_environ("GET", "/")
+            env["PATH_INFO"] = "/\xe9.txt"          # the single byte 0xE9; the tree only holds the UTF-8 name
+            import baize.wsgi as W
+            rec = run_wsgi(getattr(W, kind)(os.path.join(base, "static")), env)
+            st_ = int(rec["status"].split()[0]) if rec["status"] else None
+            if st_ == 200:
+                failures.append({"inputs": {"kind": kind, "iface": "wsgi", "path": "/\xe9.txt (raw byte)", "region": None, "raw_byte": True},
+                                 "violated": ["GET /%%E9.txt served %r (the file é.txt has the URL /%%C3%%A9.txt)" % rec["body"][:30]]})
         # directory given as a relative path
         cwd = os.getcwd()
         os.chdir(base)
@@ -224,7 +253,8 @@ def bounded(tier, seed):
         shutil.rmtree(base, ignore_errors=True)
     return {"evaluations": evals, "distinct_nontrivial": len(distinct), "failures": failures, "samples": samples,
             "rule": "request paths built from the segments %s up to depth 2 exhaustively (depth 3: %s) plus hand-picked ones, on a real "
-                    "temp tree with a parent secret and a sibling directory; Files and Pages, both interfaces, absolute and "
+                    "temp tree with a parent secret, a sibling directory, directories named like pages (adir.html, idx/index.html), a "
+                    "missing configured directory next to '<directory>.html', a non-UTF-8 request byte on WSGI; Files and Pages, both interfaces, absolute and "
                     "relative directory; compared with a lexical reference resolver; an audit hook records every "
                     "open/stat so that nothing outside the directory is touched" % (SEGS, "exhaustively" if tier == "thorough" else "seeded sample of 400"),
             "exhaustive": False}
